@@ -157,6 +157,10 @@ def C08():
                          functions=["core::event::BitmapEvent::decompress", "codec::rle::rgb565torgb32", "codec::rle::rle_32_decompress"], timeout=900, mem_gb=8))
     jobs.append(Kani("c08_rle16_wrap_and_overrun", "rle_16_decompress: a run crossing the scanline end continues on the next scanline; a run longer than the image is refused (symbolic colour)", bounds={"image": "2x2"},
                      symbolic=["colour"], functions=["codec::rle::rle_16_decompress"], timeout=900, mem_gb=8))
+    jobs.append(Kani("c08_rle16_run8_narrow", "rle_16_decompress: a run of 8 on a 4-pixel-wide image (the 8-way unrolled loop must not be entered, its guard must not underflow)", bounds={"image": "4x2"}, symbolic=["colour"],
+                     functions=["codec::rle::rle_16_decompress"], timeout=900, mem_gb=8))
+    jobs.append(Kani("c08_rle16_mega_dithered_max", "rle_16_decompress: MEGA_MEGA DITHERED_RUN with pair count 0xFFFF on a 2x2 image is refused without panic", bounds={"image": "2x2"}, symbolic=["colours"],
+                     functions=["codec::rle::rle_16_decompress"], timeout=900, mem_gb=8))
     jobs.append(Kani("c08_rle16_color_run_partial", "rle_16_decompress: COLOR_RUN of 3 on a 2x2 image paints exactly three pixels in decode order", bounds={"image": "2x2"}, symbolic=["colour"],
                      functions=["codec::rle::rle_16_decompress"], timeout=900, mem_gb=8, tiers=("thorough",)))
     for code in ("a1", "fb", "ff"):
@@ -207,6 +211,7 @@ def C09():
             ("c09_rle16_fgbg_exact", "FGBG_IMAGE on a later scanline, symbolic mask: bit i selects above xor fgPel (white), else above", True),
             ("c09_rle16_set_fg_fgbg_exact", "SET_FG_FGBG_IMAGE on a later scanline, symbolic mask and foreground", False),
             ("c09_rle16_dithered_setfg_exact", "DITHERED_RUN colours and SET_FG_FG_RUN foreground carried exactly (first scanline)", False),
+            ("c09_rle16_bg_bg_cross_line", "two consecutive BG_RUNs, the second crossing a scanline end: the foreground pixel is inserted exactly once", True),
             ("c09_rle16_unrolled_color_run", "the decoder's 8-way unrolled loop: COLOR_RUN of 10 on a 10-pixel scanline", True)):
         jobs.append(Kani(h, "interleaved 16 bpp RLE, concrete order headers / symbolic values: " + claim, tiers=("quick", "thorough") if q else ("thorough",),
                          bounds={"image": "Wx2 (W = 2..10)", "orders": "one concrete order sequence per harness"}, symbolic=["pixels", "colours", "masks"],
@@ -434,6 +439,10 @@ def C05():
                        mirjobs.fn_asserts(r"^read_conference_create_response$", "GCC server block header", call_model=mirjobs.gcc_call_model, loop_bound=1, native=mirjobs.gcc_native)))
     jobs.append(MirJob("c05_mir_panic_sites", "connection-setup read path (x224 confirm, GCC response, attach/join confirms, connect response, licence, sec::connect): every reachable unwrap/expect/index/panic call is on a justified allow-list",
                        mirjobs.panic_sites(mirjobs.SETUP_TARGETS, {r"^read_conference_create_response$": mirjobs.gcc_native_noblocks({})})))
+    jobs.append(MirJob("c05_mir_setup_arith", "x224 read_connection_confirm, licence client_connect / parse_payload, sec::connect, attach/join confirms: no arithmetic, shift, division or array-index check of their own can fail on wire values",
+                       mirjobs.multi(mirjobs.fn_asserts(r"^x224::<impl at src/core/x224\.rs[^>]*>::read_connection_confirm$", "connection confirm", loop_bound=0, native=lambda m: mirjobs.X224_CONFIRM_NATIVE),
+                                     mirjobs.fn_asserts(r"^client_connect$", "licence", loop_bound=0), mirjobs.fn_asserts(r"^parse_payload$", "licence", loop_bound=0),
+                                     mirjobs.fn_asserts(r"^read_attach_user_confirm$", "attach confirm", loop_bound=0), mirjobs.fn_asserts(r"^read_channel_join_confirm$", "join confirm", loop_bound=0))))
     jobs.append(MirJob("c05_mir_per_integer16", "per::read_integer_16: value + minimum cannot overflow for any wire value and minimum (else it is refused)",
                        mirjobs.fn_asserts(r"^read_integer_16$", "PER integer16", native=mirjobs.per_native)))
     return Prop("C05", [("core/per.rs", "per.rs"), ("core/tpkt.rs", "tpkt.rs"), ("core/x224.rs", "x224.rs"), ("core/mcs.rs", "mcs.rs"), ("core/gcc.rs", "gcc.rs")], jobs, lowerings=["L2"],
